@@ -185,6 +185,7 @@ class Repo:
 
         changed: set = set()
         sigs: Dict[str, Optional[List[str]]] = {}
+        new_helpers: Dict = {}
 
         def note_sig(name: str, params: Optional[List[str]]):
             if name in sigs and sigs[name] != params:
@@ -231,6 +232,14 @@ class Repo:
                 live = defs_of(tree)
                 ref_tree = reference_tree(name, is_pkg)
                 ref = defs_of(ref_tree) if ref_tree is not None else {}
+                # module-level functions that do not exist in the reference and are one `return <expr>`: candidates for being
+                # substituted into *other* modules that import them (a helper extracted into a shared module)
+                mod_level = {st.name for st in tree.body if isinstance(st, (ast.FunctionDef, ast.ClassDef))} | {t.id for st in tree.body if isinstance(st, ast.Assign) for t in st.targets if isinstance(t, ast.Name)}
+                for st in tree.body:
+                    if isinstance(st, ast.FunctionDef) and st.name not in ref and not st.decorator_list:
+                        body = [x for x in st.body if not (isinstance(x, ast.Expr) and isinstance(x.value, ast.Constant))]
+                        if len(body) == 1 and isinstance(body[0], ast.Return) and body[0].value is not None and not (st.args.vararg or st.args.kwarg or st.args.kwonlyargs or st.args.posonlyargs):
+                            new_helpers[(name, st.name)] = (st, mod_level, {al.asname or al.name for imp in tree.body if isinstance(imp, (ast.Import, ast.ImportFrom)) for al in imp.names})
                 for q, dump in live.items():
                     if ref.get(q) != dump:
                         changed.add(q.split(".")[-1])
@@ -253,7 +262,7 @@ class Repo:
                             if isinstance(sub, (ast.FunctionDef, ast.AsyncFunctionDef)) and sub.name != "__init__":
                                 deco = {getattr(d, "id", getattr(d, "attr", "")) for d in sub.decorator_list}
                                 note_sig(sub.name, fparams(sub, "staticmethod" not in deco))
-        set_context(changed, sigs)
+        set_context(changed, sigs, new_helpers)
 
     def _load(self) -> None:
         if os.environ.get("SA_NO_CANON") != "1":
